@@ -10,6 +10,10 @@
 #include "vtime.h"
 #include "loopdrv.h"
 #include <cstring>
+#include <dlfcn.h>
+#include <arpa/inet.h>
+#include <netinet/in.h>
+#include <sys/socket.h>
 #include <memory>
 #include <tbox/event/loop.h>
 #include <tbox/base/log_output.h>
@@ -20,6 +24,24 @@ using tbox::network::IPAddress;
 using tbox::network::DomainName;
 using tbox::network::SockAddr;
 
+// ---- the real receive path: the client's UDP socket is found by watching its queries (sendto … :53); `net <hex>`
+// sends a datagram to that socket from another socket, the loop's next pass runs UdpSocket::onSocketEvent ->
+// DnsRequest::onUdpRecv (so deleteRequest()'s udp_.disable() and a callback's request() -> udp_.enable() happen INSIDE
+// the socket's own read callback).  A datagram that was not picked up (socket disabled: nothing outstanding) is
+// discarded by the harness before the next op, which is what onUdpRecv would have done with it.
+typedef ssize_t (*sendto_fn)(int, const void *, size_t, int, const struct sockaddr *, socklen_t);
+static sendto_fn real_sendto() { static sendto_fn f = (sendto_fn)dlsym(RTLD_NEXT, "sendto"); return f; }
+static int g_dns_fd = -1, g_tx = -1;
+static bool net_pending = false;
+extern "C" ssize_t sendto(int fd, const void *buf, size_t len, int flags, const struct sockaddr *to, socklen_t tolen) {
+    if (to && to->sa_family == AF_INET && ((const struct sockaddr_in *)to)->sin_port == htons(53)) g_dns_fd = fd;
+    return real_sendto()(fd, buf, len, flags, to, tolen);
+}
+static void drain_socket() {
+    if (net_pending && g_dns_fd >= 0) { static char junk[70000]; while (recv(g_dns_fd, junk, sizeof junk, MSG_DONTWAIT) >= 0) {} }
+    net_pending = false;
+}
+
 struct Probe : public DnsRequest {
     using DnsRequest::DnsRequest;
     void feed(const void *p, size_t n) { onUdpRecv(p, n, SockAddr()); }
@@ -28,7 +50,7 @@ struct Probe : public DnsRequest {
 static tbox::event::Loop *loop = nullptr;
 static Probe *dns = nullptr;
 static uint64_t serial = 0;
-struct ActT { char kind; uint64_t arg; };            // 'L' sid | 'C' id | 'S'
+struct ActT { char kind; uint64_t arg; };            // 'L' sid | 'C' id | 'S' | 'V' n (setDnsIPAddresses) | 'R' id (isRunning) | 'Q' (isRunning own id)
 static std::vector<std::vector<ActT>> scripts;
 static std::vector<unsigned> ids;                    // serial -> id returned by request()
 static bool touch_captures = true;                   // the callback uses its captures after its API calls (`touch off` disables)
@@ -41,7 +63,9 @@ static DnsRequest::IPAddressVec servers(unsigned n) {
 }
 
 static void reset_case() {
+    drain_socket();
     delete dns;
+    g_dns_fd = -1;
     dns = new Probe(loop, servers(1));
     serial = 0;
     scripts.clear(); ids.clear(); touch_captures = true;
@@ -68,8 +92,9 @@ static bool parse_acts(const std::string &w, std::vector<ActT> &out) {
     while (std::getline(ss, t, ',')) {
         uint64_t v = 0;
         if (t == "S") { out.push_back({'S', 0}); continue; }
-        if (t.size() < 2 || (t[0] != 'L' && t[0] != 'C') || !vh::to_u64(t.substr(1), v)) return false;
-        if (t[0] == 'L' ? v >= 64 : v >= 65536) return false;
+        if (t == "Q") { out.push_back({'Q', 0}); continue; }
+        if (t.size() < 2 || (t[0] != 'L' && t[0] != 'C' && t[0] != 'V' && t[0] != 'R') || !vh::to_u64(t.substr(1), v)) return false;
+        if (t[0] == 'L' ? v >= 64 : t[0] == 'V' ? v >= 4 : v >= 65536) return false;
         out.push_back({t[0], v});
     }
     return !w.empty() && w.back() != ',';
@@ -95,9 +120,17 @@ static void on_result(uint64_t me, std::vector<ActT> sc, const DnsRequest::Resul
             std::cout << "P act " << me << " L" << act.arg << " ret=" << do_lookup(act.arg) << std::endl;
         } else if (act.kind == 'C') {
             std::cout << "P act " << me << " C" << act.arg << " ret=" << (dns->cancel((DnsRequest::ReqId)act.arg) ? 1 : 0) << std::endl;
+        } else if (act.kind == 'V') {
+            dns->setDnsIPAddresses(servers((unsigned)act.arg));
+            std::cout << "P act " << me << " V" << act.arg << " ret=0" << std::endl;
+        } else if (act.kind == 'R') {
+            std::cout << "P act " << me << " R" << act.arg << " ret=" << (dns->isRunning((DnsRequest::ReqId)act.arg) ? 1 : 0) << std::endl;
         } else {
             unsigned own = me < ids.size() ? ids[me] : 0;
-            std::cout << "P act " << me << " S ret=" << (dns->cancel((DnsRequest::ReqId)own) ? 1 : 0) << std::endl;
+            if (act.kind == 'Q')
+                std::cout << "P act " << me << " Q ret=" << (dns->isRunning((DnsRequest::ReqId)own) ? 1 : 0) << std::endl;
+            else
+                std::cout << "P act " << me << " S ret=" << (dns->cancel((DnsRequest::ReqId)own) ? 1 : 0) << std::endl;
         }
     }
 }
@@ -124,10 +157,12 @@ int main() {
     LogOutput_Disable();
     vt::enable(1000, 1700000000000LL);
     loop = tbox::event::Loop::New("epoll");
+    g_tx = socket(AF_INET, SOCK_DGRAM, 0);
     vh::LoopDriver drv(loop);
     reset_case();
     drv.step = [&]() -> bool {
         std::string line;
+        drain_socket();
         if (!std::getline(std::cin, line)) { delete dns; dns = nullptr; return false; }
         auto w = vh::words(line);
         if (w.empty()) return true;
@@ -147,7 +182,7 @@ int main() {
             unsigned last = 0;                        // n times request(); cancel(id): moves the id counter, leaves nothing outstanding
             for (uint64_t i = 0; i < n; ++i) { last = do_lookup(kNoScript); dns->cancel((DnsRequest::ReqId)last); }
             std::cout << "P ret=" << last << std::endl;
-        } else if (w[0] == "burst" && w.size() == 2 && vh::to_u64(w[1], n) && n >= 1 && n <= 5000) {
+        } else if (w[0] == "burst" && w.size() == 2 && vh::to_u64(w[1], n) && n >= 1 && n <= 70000) {
             unsigned last = 0;
             for (uint64_t i = 0; i < n; ++i) last = do_lookup(kNoScript);
             std::cout << "P ret=" << last << std::endl;
@@ -163,6 +198,14 @@ int main() {
             std::unique_ptr<uint8_t[]> blk(new uint8_t[d.size()]);
             if (!d.empty()) memcpy(blk.get(), d.data(), d.size());
             dns->feed(blk.get(), d.size());
+        } else if (w[0] == "net" && w.size() == 2 && vh::unhex(w[1], d)) {
+            std::cout << "P ret=0" << std::endl;
+            struct sockaddr_in a; socklen_t l = sizeof a; memset(&a, 0, sizeof a);
+            if (g_dns_fd >= 0 && getsockname(g_dns_fd, (struct sockaddr *)&a, &l) == 0 && a.sin_port != 0) {
+                a.sin_family = AF_INET; a.sin_addr.s_addr = htonl(INADDR_LOOPBACK);
+                real_sendto()(g_tx, d.data(), d.size(), 0, (struct sockaddr *)&a, sizeof a);   // picked up in the next pass
+                net_pending = true;
+            }
         } else if (w[0] == "tick" && w.size() == 1) {
             std::cout << "P ret=0" << std::endl;
             vt::advance_ms(1000);            // the monitor's timer (if enabled) fires in the next pass
